@@ -100,8 +100,8 @@ theorem matcher_spec (r : Rule) (e : Event) : ruleMatches r e = true ↔ Selects
 /-- the rows of one event: one per selecting rule, plus the EventBridge row -/
 theorem mem_entriesFor (c : Config) (e : Event) (row : Row) :
     row ∈ entriesFor c e ↔
-      (∃ r ∈ c.rules, Selects r e ∧ row = { dest := r.dest, event := e.name }) ∨
-      (c.eventBridge = true ∧ row = { dest := eventBridgeDest c.bucket, event := e.name }) := by
+      (∃ r ∈ c.rules, Selects r e ∧ row = { dest := r.dest, event := e.name, bucket := e.bucket, key := e.key }) ∨
+      (c.eventBridge = true ∧ row = { dest := eventBridgeDest e.bucket, event := e.name, bucket := e.bucket, key := e.key }) := by
   unfold entriesFor
   simp only [List.mem_append, List.mem_map, List.mem_filter, matcher_spec]
   constructor
@@ -129,39 +129,91 @@ theorem entry_iff_committed (rows : List Row) (f : Fault) :
   | insertFails i =>
     by_cases h : i < rows.length <;> simp [attempt, h]
 
-/-- … in terms of rules: a row exists iff the mutation committed and a rule selects one of its
-events (or the bucket has EventBridge enabled) -/
-theorem entry_iff_committed_and_selected (c : Config) (es : List Event) (f : Fault) (row : Row) :
-    row ∈ (attempt true (entriesForAll c es) f).rows ↔
-      (attempt true (entriesForAll c es) f).committed = true ∧
-      ∃ e ∈ es, (∃ r ∈ c.rules, Selects r e ∧ row = { dest := r.dest, event := e.name }) ∨
-                (c.eventBridge = true ∧ row = { dest := eventBridgeDest c.bucket, event := e.name }) := by
+/-- … in terms of rules: a row exists iff the mutation committed and a rule OF THE EVENT'S BUCKET
+selects one of its events (or that bucket has EventBridge enabled); the row names that bucket and key -/
+theorem entry_iff_committed_and_selected (cfgOf : Str → Config) (es : List Event) (f : Fault) (row : Row) :
+    row ∈ (attempt true (entriesForAll cfgOf es) f).rows ↔
+      (attempt true (entriesForAll cfgOf es) f).committed = true ∧
+      ∃ e ∈ es, (∃ r ∈ (cfgOf e.bucket).rules, Selects r e ∧ row = { dest := r.dest, event := e.name, bucket := e.bucket, key := e.key }) ∨
+                ((cfgOf e.bucket).eventBridge = true ∧ row = { dest := eventBridgeDest e.bucket, event := e.name, bucket := e.bucket, key := e.key }) := by
   rw [(entry_iff_committed _ f).1]
-  cases hc : (attempt true (entriesForAll c es) f).committed with
+  cases hc : (attempt true (entriesForAll cfgOf es) f).committed with
   | false => simp
   | true =>
     simp only [if_true, true_and, entriesForAll, List.mem_flatMap, mem_entriesFor]
 
 /-- the whole outbox after any history of attempts is the concatenation of the demanded rows of
 the committed ones -/
-theorem outbox_eq_demanded (c : Config) (ops : List (List Event × Fault)) :
-    (ops.flatMap fun op => (attempt true (entriesForAll c op.1) op.2).rows) =
-    (ops.flatMap fun op => op.1.flatMap (demanded c (attempt true (entriesForAll c op.1) op.2).committed)) := by
+theorem outbox_eq_demanded (cfgOf : Str → Config) (ops : List (List Event × Fault)) :
+    (ops.flatMap fun op => (attempt true (entriesForAll cfgOf op.1) op.2).rows) =
+    (ops.flatMap fun op => op.1.flatMap (demanded cfgOf (attempt true (entriesForAll cfgOf op.1) op.2).committed)) := by
   induction ops with
   | nil => rfl
   | cons op ops ih =>
     simp only [List.flatMap_cons, ih]
     congr 1
     rw [(entry_iff_committed _ op.2).1]
-    have ht : demanded c true = entriesFor c := by funext e; simp [demanded]
-    have hf : ∀ l : List Event, l.flatMap (demanded c false) = [] := by
+    have ht : demanded cfgOf true = fun e => entriesFor (cfgOf e.bucket) e := by funext e; simp [demanded]
+    have hf : ∀ l : List Event, l.flatMap (demanded cfgOf false) = [] := by
       intro l
       induction l with
       | nil => rfl
       | cons e es ihe => simp [List.flatMap_cons, ihe, demanded]
-    cases (attempt true (entriesForAll c op.1) op.2).committed with
+    cases (attempt true (entriesForAll cfgOf op.1) op.2).committed with
     | true => simp [ht, entriesForAll]
     | false => simp [hf]
+
+/-! ### the event of a mutation belongs to the bucket that was mutated -/
+
+/-- **event_addressed_to_mutated_bucket.** For every call except AppendObject the events the
+middleware builds are exactly the spec's: one per mutated object, named after the mutation, and
+carrying the bucket and key of the object that was MUTATED — for a copy its destination, never its
+source. The bucket of the event is both the notification configuration consulted
+(`entriesForAll`) and the bucket named in the payload. -/
+theorem event_addressed_to_mutated_bucket (c : Call) (h : ∀ t, c ≠ .append t) :
+    codeEvents c = specEvents c := by
+  cases c with
+  | put t => rfl
+  | copy src dst => rfl
+  | complete t => rfl
+  | delete t m => cases m <;> rfl
+  | deleteObjects b ks =>
+    simp only [codeEvents, specEvents, mutated, List.map_map]
+    apply List.map_congr_left
+    intro k _
+    cases hk : k.2 <;> simp [removedName, eventName, hk]
+  | tagPut t => rfl
+  | tagDel t => rfl
+  | append t => exact absurd rfl (h t)
+
+/-- … hence every outbox row of a call names a mutated object of that call, carries the event name
+of that mutation, and was selected by the configuration of THAT object's bucket -/
+theorem rows_belong_to_the_mutated_bucket (cfgOf : Str → Config) (c : Call) (row : Row)
+    (h : row ∈ entriesForAll cfgOf (codeEvents c)) :
+    ∃ mt ∈ mutated c, row.bucket = mt.2.bucket ∧ row.key = mt.2.key ∧ row.event = eventName mt.1 ∧
+      ((∃ r ∈ (cfgOf mt.2.bucket).rules, Selects r { name := eventName mt.1, bucket := mt.2.bucket, key := mt.2.key } ∧ row.dest = r.dest) ∨
+       ((cfgOf mt.2.bucket).eventBridge = true ∧ row.dest = eventBridgeDest mt.2.bucket)) := by
+  have hne : ∀ t, c ≠ .append t := by
+    intro t ht
+    subst ht
+    simp [codeEvents, entriesForAll] at h
+  rw [event_addressed_to_mutated_bucket c hne] at h
+  simp only [entriesForAll, specEvents, List.mem_flatMap, List.mem_map] at h
+  obtain ⟨e, ⟨mt, hmt, rfl⟩, hrow⟩ := h
+  rw [mem_entriesFor] at hrow
+  refine ⟨mt, hmt, ?_⟩
+  rcases hrow with ⟨r, hr, hs, rfl⟩ | ⟨heb, rfl⟩
+  · exact ⟨rfl, rfl, rfl, Or.inl ⟨r, hr, hs, rfl⟩⟩
+  · exact ⟨rfl, rfl, rfl, Or.inr ⟨heb, rfl⟩⟩
+
+/-- a cross-bucket copy never produces a row for its source bucket (unless source = destination) -/
+theorem copy_rows_name_destination (cfgOf : Str → Config) (src dst : Target) (row : Row)
+    (h : row ∈ entriesForAll cfgOf (codeEvents (.copy src dst))) :
+    row.bucket = dst.bucket ∧ row.key = dst.key := by
+  obtain ⟨mt, hmt, hb, hk, _⟩ := rows_belong_to_the_mutated_bucket cfgOf _ row h
+  simp only [mutated, List.mem_singleton] at hmt
+  subst hmt
+  exact ⟨hb, hk⟩
 
 /-- negation witness for the best-effort mode (storage on a DIFFERENT database handle): the insert
 fails after the mutation has committed on its own — a committed mutation without its row. -/
@@ -373,6 +425,133 @@ theorem settles_within_max (c : DCfg) (script : List Bool) (hm : c.maxAttempts >
   · exact Or.inr h
   · omega
 
+/-! ## (b′) bounded retries over ALL dispatcher schedules (claims, reports, crashes, lease expiry) -/
+
+/-- invariant of `dstep`: while an entry is not terminal its attempt count is bounded by
+`max (MaxAttempts − 1) a₀ + lost` when pending and by one more while claimed, where `a₀` is the count
+it started with and `lost` the number of reports that never landed -/
+def Bounded (c : DCfg) (a0 : Nat) (st : DState) : Prop :=
+  (st.phase = .pending → st.attempts ≤ max (c.maxAttempts - 1) a0 + st.lost) ∧
+  (st.phase = .claimed → st.attempts ≤ max (c.maxAttempts - 1) a0 + st.lost + 1)
+
+theorem bounded_step (c : DCfg) (hM : c.maxAttempts > 0) (a0 : Nat) (st : DState) (step : DStep)
+    (h : Bounded c a0 st) : Bounded c a0 (dstep c st step) := by
+  obtain ⟨hp, hc⟩ := h
+  have hmax : c.maxAttempts - 1 ≤ max (c.maxAttempts - 1) a0 := Nat.le_max_left _ _
+  cases step with
+  | claim =>
+    by_cases hph : st.phase = .pending
+    · have := hp hph
+      simp only [dstep, hph, if_true]
+      exact ⟨by simp, fun _ => by simp only; omega⟩
+    · simp only [dstep, hph, if_false]; exact ⟨hp, hc⟩
+  | reportOk =>
+    by_cases hph : st.phase = .claimed
+    · simp only [dstep, hph, if_true]; exact ⟨by simp, by simp⟩
+    · simp only [dstep, hph, if_false]; exact ⟨hp, hc⟩
+  | reportFail =>
+    by_cases hph : st.phase = .claimed
+    · by_cases hex : (decide (c.maxAttempts > 0) && decide (st.attempts ≥ c.maxAttempts)) = true
+      · simp only [dstep, hph, if_true, hex]; exact ⟨by simp, by simp⟩
+      · have hlt : st.attempts < c.maxAttempts := by
+          simp only [Bool.and_eq_true, decide_eq_true_eq, not_and, Nat.not_le] at hex
+          exact hex hM
+        simp only [dstep, hph, if_true, hex]
+        refine ⟨fun _ => ?_, by simp⟩
+        simp only [Bool.false_eq_true, if_false]
+        omega
+    · simp only [dstep, hph, if_false]; exact ⟨hp, hc⟩
+  | lose =>
+    by_cases hph : st.phase = .claimed
+    · have := hc hph
+      simp only [dstep, hph, if_true]
+      exact ⟨fun _ => by simp only; omega, by simp⟩
+    · simp only [dstep, hph, if_false]; exact ⟨hp, hc⟩
+
+/-- **bounded_retries.** For EVERY schedule of claims, reports and lost reports (worker crashes
+between claim and report, lease expiry, failing ReleaseClaim / DeadLetter / Delete updates), from
+any starting attempt count `a₀` (a lowered MaxAttempts): an entry that is not yet terminal has
+`attempts ≤ max (MaxAttempts − 1) a₀ + lost + 1`. With no lost report and a fresh entry this is
+`attempts ≤ MaxAttempts`: the attempt counter never passes the bound without the entry being
+terminal, except by one per report that was lost. -/
+theorem bounded_retries (c : DCfg) (hM : c.maxAttempts > 0) (a0 : Nat) (steps : List DStep) :
+    ((drun c { phase := .pending, attempts := a0, lost := 0 } steps).phase = .pending ∨
+     (drun c { phase := .pending, attempts := a0, lost := 0 } steps).phase = .claimed) →
+    (drun c { phase := .pending, attempts := a0, lost := 0 } steps).attempts ≤
+      max (c.maxAttempts - 1) a0 + (drun c { phase := .pending, attempts := a0, lost := 0 } steps).lost + 1 := by
+  have key : ∀ (steps : List DStep) (st : DState), Bounded c a0 st → Bounded c a0 (drun c st steps) := by
+    intro steps
+    induction steps with
+    | nil => intro st h; exact h
+    | cons x xs ih => intro st h; exact ih _ (bounded_step c hM a0 st x h)
+  have h0 : Bounded c a0 { phase := .pending, attempts := a0, lost := 0 } :=
+    ⟨fun _ => by simp; exact Nat.le_max_right _ _, fun h => by simp at h⟩
+  have hb := key steps _ h0
+  intro hph
+  rcases hph with h | h
+  · have := hb.1 h; omega
+  · exact hb.2 h
+
+/-- **exhausted_failure_is_terminal.** A reported failure of an attempt numbered MaxAttempts or
+higher dead-letters the entry — also when the counter has moved PAST MaxAttempts (after a crash on
+the last permitted attempt, a failed DeadLetter update, or a lowered MaxAttempts). -/
+theorem exhausted_failure_is_terminal (c : DCfg) (hM : c.maxAttempts > 0) (st : DState)
+    (hc : st.phase = .claimed) (ha : c.maxAttempts ≤ st.attempts) :
+    (dstep c st .reportFail).phase = .dead := by
+  simp [dstep, hc, hM, ha]
+
+/-- delivered and dead are absorbing: no step publishes, releases or re-claims such an entry -/
+theorem terminal_is_absorbing (c : DCfg) (st : DState) (step : DStep)
+    (h : st.phase = .delivered ∨ st.phase = .dead) : dstep c st step = st := by
+  rcases h with h | h <;> cases step <;> simp [dstep, h]
+
+/-- `runOutcomes` without lost reports is `runScript` -/
+theorem runOutcomes_eq_runScript (c : DCfg) (a : Nat) (script : List Bool) :
+    runOutcomes c a (script.map fun b => if b then .ok else .fail) = runScript c a script := by
+  induction script generalizing a with
+  | nil => rfl
+  | cons b rest ih =>
+    cases b with
+    | true => simp [runOutcomes, runScript]
+    | false =>
+      by_cases hmax : (c.maxAttempts > 0 && a + 1 ≥ c.maxAttempts) = true
+      · simp [runOutcomes, runScript, hmax]
+      · simp only [List.map_cons, Bool.false_eq_true, if_false, runOutcomes, runScript, hmax, ih (a + 1)]
+
+/-- the number of Publish calls of a fresh entry never exceeds MaxAttempts + the number of lost reports -/
+theorem publishes_bounded (c : DCfg) (hM : c.maxAttempts > 0) (a : Nat) (os : List PubOutcome) :
+    a + (runOutcomes c a os).2.length ≤
+      max c.maxAttempts (a + 1) + (os.filter fun o => o == .okLost || o == .failLost).length ∨
+    (runOutcomes c a os).2 = [] := by
+  induction os generalizing a with
+  | nil => exact Or.inr rfl
+  | cons o rest ih =>
+    left
+    cases o with
+    | ok => simp [runOutcomes]; omega
+    | fail =>
+      by_cases hmax : (c.maxAttempts > 0 && a + 1 ≥ c.maxAttempts) = true
+      · simp [runOutcomes, hmax]; omega
+      · have hlt : a + 1 < c.maxAttempts := by
+          simp only [Bool.and_eq_true, decide_eq_true_eq, not_and, Nat.not_le] at hmax
+          exact hmax hM
+        simp only [runOutcomes, hmax, Bool.false_eq_true, if_false, List.length_cons]
+        rcases ih (a + 1) with h | h
+        · simp only [List.filter_cons] at h ⊢
+          simp at h ⊢
+          omega
+        · rw [h]; simp; omega
+    | okLost =>
+      simp only [runOutcomes, List.length_cons]
+      rcases ih (a + 1) with h | h
+      · simp at h ⊢; omega
+      · rw [h]; simp; omega
+    | failLost =>
+      simp only [runOutcomes, List.length_cons]
+      rcases ih (a + 1) with h | h
+      · simp at h ⊢; omega
+      · rw [h]; simp; omega
+
 /-! ## non-vacuity -/
 
 example :
@@ -385,6 +564,15 @@ example :
 
 example :
     ruleMatches { dest := [], events := ["s3:ObjectCreated:*".toList], filters := [⟨prefixName, "img/".toList⟩] }
-      { name := "s3:ObjectCreated:Put".toList, key := "img/a.jpg".toList } = true := by decide
+      { name := "s3:ObjectCreated:Put".toList, bucket := "b".toList, key := "img/a.jpg".toList } = true := by decide
+
+/-- a crash on the last permitted attempt (MaxAttempts = 2): one more claim, then dead — attempts = 3 = 2 + 1 lost -/
+example :
+    drun { maxAttempts := 2, minBackoff := 1, maxBackoff := 1 } { phase := .pending, attempts := 0, lost := 0 }
+      [.claim, .reportFail, .claim, .lose, .claim, .reportFail] = { phase := .dead, attempts := 3, lost := 1 } := by decide
+
+example :
+    runOutcomes { maxAttempts := 2, minBackoff := 1, maxBackoff := 1 } 0 [.fail, .failLost, .fail, .fail] =
+      (.dead, [⟨1, false, 1⟩, ⟨2, false, 0⟩, ⟨3, false, 0⟩]) := by decide
 
 end Pithos.C22
